@@ -201,6 +201,33 @@ def union_queries():
     return out
 
 
+def union_operands():
+    """operators BOTH of whose operands have the same static UNION type while each folds to a constant of one member: the
+    admissibility test sees (U, U), the folding pass the two constants - every operator x every pair of members x every
+    way of giving an expression that type while its value is known to the folder"""
+    out = []
+    unions = [("int|float", "1", "2.5"), ("int|string", "1", "\"a\""), ("int|bool", "1", "true"), ("float|string", "1.5", "\"a\""),
+              ("[int]|string", "[1]", "\"a\""), ("[int]|[float]", "[1]", "[2.5]"), ("int|[int]", "1", "[1]")]
+    ops = ["+", "-", "*", "/", "%", "**", "<<", ">>", "&", "|", "^", "<", "<=", ">", ">=", "==", "!=", "&&", "||"]
+    for ty, a, b in unions:
+        for i in (0, 1):
+            for pre in ("-", "!"):
+                out.append("%s [%s, %s][%d]" % (pre, a, b, i))
+                out.append("x := if %s { %s } else { %s }; %s x" % ("true" if i == 0 else "false", a, b, pre))
+            for j in (0, 1):
+                for op in ops:
+                    out.append("[%s, %s][%d] %s [%s, %s][%d]" % (a, b, i, op, a, b, j))
+                    out.append("a := [%s, %s]; a[%d] %s a[%d]" % (b, a, i, op, j))
+                    out.append("x := if %s { %s } else { %s }; y := if %s { %s } else { %s }; x %s y" %
+                               ("true" if i == 0 else "false", a, b, "true" if j == 0 else "false", a, b, op))
+                    out.append("t := (%s, %s); u := [t.0, t.1]; u[%d] %s u[%d]" % (a, b, i, op, j))
+        for op in ops:
+            out.append("f := (x: %s, y: %s) -> any { return x %s y }" % (ty, ty, op))
+            out.append("m := mut %s %s; m %s= [%s, %s][1]" % (ty, a, op, a, b) if op not in ("<", "<=", ">", ">=", "==", "!=", "&&", "||") else
+                       "f := (x: %s) -> any { return x %s x }" % (ty, op))
+    return out
+
+
 def literal_spacing():
     """value and type literals (what `Variable::from_str` / `Type::from_str` read, also valid program text) with every gap
     between two tokens - also the one after a sign, where the text has no blank - filled with white space the grammar
@@ -321,7 +348,7 @@ def run(res, tier, seed, broken_model):
     base = os.path.join(CACHE, "c03-scratch", str(os.getpid()))
     shutil.rmtree(base, ignore_errors=True)
     streams = [("matrix", matrix(rnd, thorough), "c"), ("constants", constants(rnd, thorough), "c"), ("docs", docs(base), "a"),
-               ("names", name_coincidences(), "c"), ("literal-spacing", literal_spacing(), "a"), ("union-queries", union_queries(), "c"),
+               ("names", name_coincidences(), "c"), ("literal-spacing", literal_spacing(), "a"), ("union-queries", union_queries(), "c"), ("union-operands", union_operands(), "c"),
                ("whitespace", None, "a"), ("tokens", token_sequences(rnd, thorough), "a"), ("text", texts(rnd, seed, thorough), "a")]
     total = {}
     for name, progs, which in streams:
